@@ -14,6 +14,8 @@ SPEC = os.path.join(VERIF, "spec")
 WORK = os.path.join(VERIF, "work")
 HARNESS = os.path.join(VERIF, "harness")
 VH = os.path.join(HARNESS, "target", "debug", "vh")
+VH_REL = os.path.join(HARNESS, "target", "rel", "vh")
+VARIANTS = [("dev", VH), ("rel", VH_REL)]
 NCPU = os.cpu_count() or 4
 
 
@@ -39,11 +41,12 @@ def build_harness():
     if not os.path.exists(lock):
         shutil.copy("/repo/Cargo.lock", lock)
     env = dict(os.environ, CARGO_NET_OFFLINE="true")
-    p = subprocess.run(["cargo", "build", "--offline", "--quiet"], cwd=HARNESS, env=env,
-                       stdout=subprocess.PIPE, stderr=subprocess.STDOUT, text=True)
-    if p.returncode != 0:
-        sys.stderr.write(p.stdout[-4000:])
-        raise ToolError("harness build failed (does /repo still compile with features dir,verif-hooks?)")
+    for extra in ([], ["--profile", "rel"]):
+        p = subprocess.run(["cargo", "build", "--offline", "--quiet"] + extra, cwd=HARNESS, env=env,
+                           stdout=subprocess.PIPE, stderr=subprocess.STDOUT, text=True)
+        if p.returncode != 0:
+            sys.stderr.write(p.stdout[-4000:])
+            raise ToolError("harness build failed (does /repo still compile with features dir,verif-hooks?)")
     return time.time() - t
 
 
@@ -128,8 +131,8 @@ def shard(items, n):
     return [items[i:i + k] for i in range(0, len(items), k)]
 
 
-def run_harness(engine, cases_path, trace_path, timeout=900):
-    p = subprocess.run([VH, engine, cases_path, trace_path], stdout=subprocess.PIPE, stderr=subprocess.PIPE,
+def run_harness(engine, cases_path, trace_path, timeout=900, vh=None):
+    p = subprocess.run([vh or VH, engine, cases_path, trace_path], stdout=subprocess.PIPE, stderr=subprocess.PIPE,
                        text=True, timeout=timeout)
     if p.returncode != 0:
         raise ToolError("harness %s failed rc=%s: %s" % (engine, p.returncode, p.stderr[-2000:]))
@@ -137,34 +140,45 @@ def run_harness(engine, cases_path, trace_path, timeout=900):
 
 
 def validate_shard(args):
-    """Runs harness + TLC trace validation for one shard. Returns the result record."""
+    """Runs harness + TLC trace validation for one shard, once per build variant (dev: debug
+    assertions and overflow checks on; rel: both off).  Returns the merged result record."""
     (d, idx, engine, trace_module, cases, constants, timeout) = args
     sd = os.path.join(d, "s%02d" % idx)
     os.makedirs(sd, exist_ok=True)
     copy_specs(sd)
     cpath = os.path.join(sd, "cases.ndjson")
-    tpath = os.path.join(sd, "trace.ndjson")
-    opath = os.path.join(sd, "result.ndjson")
     write_ndjson(cpath, cases)
-    t = time.time()
-    run_harness(engine, cpath, tpath)
-    th = time.time() - t
     cfg = "SPECIFICATION Spec\nCONSTANTS\n" + "\n".join("  %s = %s" % kv for kv in constants.items()) + \
           "\nPOSTCONDITION Accepted\nCHECK_DEADLOCK FALSE\n"
-    t = time.time()
-    rc, out = run_tlc(sd, trace_module, cfg, workers=1, timeout=timeout,
-                      env_extra={"TRACE": tpath, "OUT": opath}, deque=True)
-    tt = time.time() - t
-    if rc != 0 or not os.path.exists(opath):
-        with open(os.path.join(sd, "tlc.out"), "w") as f:
-            f.write(out)
-        raise ToolError("trace validation did not complete for shard %d (rc=%s); see %s/tlc.out\n%s"
-                        % (idx, rc, sd, out[-1500:]))
-    res = read_ndjson(opath)[0]
-    st = parse_tlc_stats(out)
-    res.update({"shard": idx, "harness_s": th, "tlc_s": tt, "states": st["distinct"], "generated": st["generated"],
-                "dir": sd})
-    return res
+    merged = {"shard": idx, "harness_s": 0.0, "tlc_s": 0.0, "states": 0, "generated": 0, "events": 0, "cases": 0,
+              "viol": [], "drift": [], "dir": sd}
+    for vname, vh in VARIANTS:
+        tpath = os.path.join(sd, "trace_%s.ndjson" % vname)
+        opath = os.path.join(sd, "result_%s.ndjson" % vname)
+        t = time.time()
+        run_harness(engine, cpath, tpath, vh=vh)
+        merged["harness_s"] += time.time() - t
+        t = time.time()
+        rc, out = run_tlc(sd, trace_module, cfg, workers=1, timeout=timeout,
+                          env_extra={"TRACE": tpath, "OUT": opath}, deque=True)
+        merged["tlc_s"] += time.time() - t
+        if rc != 0 or not os.path.exists(opath):
+            with open(os.path.join(sd, "tlc_%s.out" % vname), "w") as f:
+                f.write(out)
+            raise ToolError("trace validation did not complete for shard %d/%s (rc=%s); see %s/tlc_%s.out\n%s"
+                            % (idx, vname, rc, sd, vname, out[-1500:]))
+        res = read_ndjson(opath)[0]
+        st = parse_tlc_stats(out)
+        merged["states"] += st["distinct"]
+        merged["generated"] += st["generated"]
+        merged["events"] += res.get("events", 0)
+        merged["cases"] = res.get("cases", 0)
+        merged["viol"] += [v + [vname] for v in res.get("viol", [])]
+        merged["drift"] += [v + [vname] for v in res.get("drift", [])]
+        for k in ("heads", "polls", "steps"):
+            if k in res:
+                merged[k] = merged.get(k, 0) + res[k]
+    return merged
 
 
 def validate_cases(name, engine, trace_module, cases, constants, nshards=None, timeout=900):
